@@ -348,7 +348,7 @@ static int _GD_Move(DIRFILE *D, gd_entry_t *E, int new_fragment, unsigned flags)
 
   if (new_len != E->e->len || memcmp(new_code, E->field, new_len)) {
     /* duplicate check */
-    if (_GD_FindField(D, new_code, new_len, D->entry, D->n_entries, 1, NULL)) {
+    if (_GD_FindField(D, new_code, new_len, D->entry, D->n_entries, 0, NULL)) {
       _GD_SetError(D, GD_E_DUPLICATE, 0, NULL, 0, new_code);
       free(new_filebase);
       free(new_code);
